@@ -49,3 +49,35 @@ PROPS["C04"] = {
         "thorough": [J("c04", 0, defs=SC3, depth=40, deadline=900)],
     },
 }
+
+PROPS["C05"] = {
+    "level": "model_checking",
+    "technique": "reachability closure of the real SDO server under the full command alphabet + recovery probes (abort / reset communication, then clean transfers) in every reachable state, differential against a fresh node",
+    "text": "tbd", "note": "tbd",
+    "jobs": {
+        "quick": [J("c05", 0, defs=SC3, depth=40, deadline=100, opts={"coarse": 1})],
+        "thorough": [J("c05", 0, defs=SC3, depth=40, deadline=900, opts={"coarse": 1})],
+    },
+}
+
+REAL4K = ["SDO_DS2=4000"]
+TWO = ["CO_SSDO_N=2", "SDO_DS2=1000"]
+PROPS["C02"] = {
+    "level": "model_checking",
+    "technique": "deviation-bounded exhaustive enumeration of conforming download clients (all modes, size indications, last-segment fills, lost-segment placements, two-server interleavings) against the real server with the reference server in lockstep",
+    "text": "tbd", "note": "tbd",
+    "jobs": {
+        "quick": [J("c02", 0, defs=REAL4K, deadline=120), J("c02", 1, defs=REAL4K), J("c02", 2, defs=TWO, deadline=120)],
+        "thorough": [J("c02", 0, defs=REAL4K, deadline=1500), J("c02", 1, defs=REAL4K), J("c02", 2, defs=TWO, deadline=900)],
+    },
+}
+
+PROPS["C03"] = {
+    "level": "model_checking",
+    "technique": "deviation-bounded exhaustive enumeration of conforming upload clients (segmented; block with every block size, every acknowledge position per block, block size changes) against the real server with the reference server in lockstep",
+    "text": "tbd", "note": "tbd",
+    "jobs": {
+        "quick": [J("c03", c, defs=REAL4K, deadline=150) for c in range(3, 17)] + [J("c03", 2, defs=REAL4K)],
+        "thorough": [J("c03", c, defs=REAL4K, deadline=1500) for c in range(3, 17)] + [J("c03", 2, defs=REAL4K)],
+    },
+}
